@@ -355,7 +355,7 @@ def pipeline(job, trace_props=None, tag="", force_degraded=None):
         out_txt = os.path.join(wd, "result.json" if trace_props else "result.txt")
         cmd = ["cbmc", cur, "--verbosity", "8", "--drop-unused-functions", "--object-bits", "12"] + job.safety + job.cbmc
         if degraded:
-            cmd = [c for c in cmd if c != "--unwinding-assertions"] + ["--unwind", str(job.degraded_unwind)]
+            cmd = [c for c in cmd if c != "--unwinding-assertions"] + ["--unwind", str(job.degraded_unwind), "--no-unwinding-assertions"]   # cbmc 6 has them on by default
             if job.degraded_unwind > 8:
                 # a deep bounded search: keep it feasible by unwinding the LAST-numbered loop of every function with
                 # several loops (the outermost of a nest: back edges are numbered in order) only 3 times.  Any choice of
